@@ -1,18 +1,19 @@
 (* C07, RoundedRectangle part: rendering commutes with translation.
    Statements only; proofs are in Proofs/RrectTranslate.v.  rr_translate = Transform::translate (translate_mut moves the same
    field in place; the correspondence suite rr_translate compares both with the model).
-   Hypotheses: the shape (and its stroke/fill areas) before and after the move lie in the no-saturation range. *)
-From EG Require Import Base.Prelude Model.Geometry Model.Style Model.Rrect Proofs.Geometry Proofs.Rrect Proofs.RrectTranslate.
+   Hypotheses: the shape (and its stroke/fill areas) before and after the move lie in the domain rr_dom / styled_dom
+   (no saturation, every intermediate fits its type; see C05_rrect.v). *)
+From EG Require Import Base.Prelude Model.Geometry Model.Style Model.Rrect Proofs.Geometry Proofs.Curvefacts Proofs.Rrect Proofs.RrectTranslate Proofs.Rrect2.
 
 Theorem C07_rrect_contains_translate : forall r d p,
-  rr_ok r -> rr_ok (rr_translate r d) ->
+  rr_dom r -> rr_dom (rr_translate r d) ->
   rr_contains (rr_translate r d) (padd p d) = rr_contains r p.
-Proof. exact rr_contains_translate. Qed.
+Proof. intros; eapply rr_contains_translate; eauto using rr_dom_ok, styled_dom_ok. Qed.
 
 Theorem C07_rrect_points_translate : forall r d,
-  rr_ok r -> rr_ok (rr_translate r d) ->
+  rr_dom r -> rr_dom (rr_translate r d) ->
   rr_points (rr_translate r d) = map (fun p => padd p d) (rr_points r).
-Proof. exact rr_points_translate. Qed.
+Proof. intros; eapply rr_points_translate; eauto using rr_dom_ok, styled_dom_ok. Qed.
 
 Theorem C07_rrect_bbox_translate : forall r d st,
   rr_bounding_box (rr_translate r d) = translate_rect (rr_bounding_box r) d /\
@@ -20,18 +21,19 @@ Theorem C07_rrect_bbox_translate : forall r d st,
 Proof. intros r d st. split; [apply rr_bounding_box_translate|apply rr_styled_bbox_translate]. Qed.
 
 Theorem C07_rrect_draw_translate : forall r d st bb p,
-  styled_ok r st -> styled_ok (rr_translate r d) st ->
+  styled_dom r st -> styled_dom (rr_translate r d) st ->
   pix_get (writes_of_calls (translate_rect bb d) (rr_draw (rr_translate r d) st)) (padd p d) =
   pix_get (writes_of_calls bb (rr_draw r st)) p.
-Proof. exact rr_draw_translate. Qed.
+Proof. intros; eapply rr_draw_translate; eauto using rr_dom_ok, styled_dom_ok. Qed.
 
 Theorem C07_rrect_pixels_translate : forall r d st bb p,
-  styled_ok r st -> styled_ok (rr_translate r d) st ->
+  styled_dom r st -> styled_dom (rr_translate r d) st ->
   pix_get (writes_of_pixels (translate_rect bb d) (rr_pixels (rr_translate r d) st)) (padd p d) =
   pix_get (writes_of_pixels bb (rr_pixels r st)) p.
-Proof. exact rr_pixels_translate. Qed.
+Proof. intros; eapply rr_pixels_translate; eauto using rr_dom_ok, styled_dom_ok. Qed.
 
 Example C07_rrect_nonvacuous :
   let r := RR (R (P (-3) 2) (S 12 9)) (CR (S 3 4) (S 20 1) (S 2 2) (S 0 5)) in
+  rr_dom r /\ rr_dom (rr_translate r (P 13 (-11))) /\
   rr_points (rr_translate r (P 13 (-11))) = map (fun p => padd p (P 13 (-11))) (rr_points r) /\ length (rr_points r) = 108%nat.
-Proof. vm_compute. split; reflexivity. Qed.
+Proof. cbv zeta. split; [apply rr_dom_b; vm_compute; reflexivity|]. split; [apply rr_dom_b; vm_compute; reflexivity|]. vm_compute. split; reflexivity. Qed.
